@@ -191,6 +191,53 @@ func TestC08Exhaustive(t *testing.T) {
 }
 
 // TestC08Random explores longer histories with several resizes.
+// TestC08LongRun: the history keeps working when the epoch number outgrows one byte.
+func TestC08LongRun(t *testing.T) {
+	theT = t
+	col := ev.New("C08", "long-run",
+		"enumeration: counts {3} (thorough: {3, 10}) x consecutive ticks from epoch 1 to 260 (the epoch number passes 127/128 and 255/256, where its encodings grow), all three read paths compared with the retained-epochs model at epochs 126..130 and 253..260, with a resize (count+1, then back) at epoch 256; non-trivial = every case")
+	defer func() { col.Flush(true) }()
+	nshards, shard := envInt("VERIF_NSHARDS", 1), envInt("VERIF_SHARD_INDEX", 0)
+	counts := []int{3}
+	if ev.Thorough() {
+		counts = []int{3, 10}
+	}
+	for i, cnt := range counts {
+		if i%nshards != shard {
+			continue
+		}
+		h := ev.NewHistory()
+		h.Op("count %d, 260 consecutive ticks", cnt)
+		if !runCase(t, col, h, func() {
+			w := newC08World(h)
+			defer w.close()
+			if cnt != 10 && !w.resize(cnt) {
+				fail("C08: resize to %d refused on a fresh contract", cnt)
+			}
+			for e := 1; e <= 260; e++ {
+				w.tick()
+				if (e >= 126 && e <= 130) || e >= 253 {
+					w.checkAll(fmt.Sprintf("tick to %d", e))
+				}
+				if e == 256 {
+					if w.resize(cnt + 1) {
+						w.checkAll("resize at 256")
+					}
+				}
+				if e == 258 {
+					if w.resize(cnt) {
+						w.checkAll("resize back at 258")
+					}
+				}
+			}
+			h.NonTrivial()
+		}) {
+			return
+		}
+	}
+	col.SetExhaustive(true)
+}
+
 func TestC08Random(t *testing.T) {
 	theT = t
 	col := ev.New("C08", "random",
